@@ -87,6 +87,36 @@ def explore_subtree(srv, sc, mode, root, bound, budget, t_end=None):
     return nexec, viol, outcomes, maxp, capped
 
 
+_SRV = {}
+
+
+def server_for(xe, scratch_dir):
+    """one driver process per worker process and executable (starting one costs more than a hundred executions)"""
+    k = (xe, os.getpid())
+    if k not in _SRV:
+        _SRV[k] = Server(xe, os.path.join(scratch_dir, "w%d-%d" % (os.getpid(), len(_SRV))))
+    return _SRV[k]
+
+
+def children_of(prefix, pts, bound):
+    """the alternatives below one executed schedule that stay within the preemption bound"""
+    pre = 0
+    pres = []
+    for (n, re_, ch) in pts:
+        pres.append(pre)
+        if ch != 0 and re_:
+            pre += 1
+    taken = [p[2] for p in pts]
+    out = []
+    for i in range(len(prefix), len(pts)):
+        n, re_, ch = pts[i]
+        if pres[i] + (1 if re_ else 0) > bound:
+            continue
+        for alt in range(1, n):
+            out.append(taken[:i] + [alt])
+    return out
+
+
 def run(prop, tier):
     ctx = Ctx("C11", tier, "model_checking")
     scratch = Scratch("C11")
@@ -101,10 +131,11 @@ def run(prop, tier):
         for bound in bounds:
             caps_before = len(ctx.cov["caps_hit"])
             configs = [("a", "d", exe), ("b", "d", exe), ("b", "t", exe), ("c", "d", exe), ("c", "t", exe), ("d", "d", exe), ("b", "d", exe_small)]
-            if tier != "quick":
-                configs += [("a", "t", exe), ("d", "t", exe), ("b", "t", exe_small)]
-                if bound == 2:
-                    configs += [("e", "d", exe), ("e", "t", exe)]      # three threads: bound 2 only
+            configs += [("a", "t", exe), ("d", "t", exe), ("b", "t", exe_small)]
+            if bound == 2:
+                configs += [("e", "d", exe)]      # three threads: bound 2 only
+                if tier != "quick":
+                    configs += [("e", "t", exe)]
             for (sc, mode, xe) in configs:
                 small = xe is exe_small
                 if ctx.out_of_time(0.8):
@@ -124,19 +155,32 @@ def run(prop, tier):
                         continue
                     for alt in range(1, n):
                         roots.append([0] * i + [alt])
-                per_budget = (4000 if tier == "quick" else 40000)
+                per_budget = (40000 if tier == "quick" else 400000)
                 t_end = ctx.t0 + ctx.deadline_s * 0.75
 
                 def work(root):
-                    srv = Server(xe, os.path.join(scratch.dir, "w%d" % os.getpid()))
-                    try:
-                        return explore_subtree(srv, sc, mode, root, bound, per_budget, t_end)
-                    finally:
-                        srv.close()
+                    return explore_subtree(server_for(xe, scratch.dir), sc, mode, root, bound, per_budget, t_end)
+
+                def split(root):
+                    # one more level in the parent's work list, so that a few heavy first-level subtrees do not serialise the search
+                    pts, verdict, outcome = server_for(xe, scratch.dir).run(sc, mode, root)
+                    if verdict != "ok":
+                        return None       # left to explore_subtree (which replays it before reporting)
+                    return (children_of(root, pts, bound), outcome, len(pts))
                 total = 1
                 outcomes = {outcome}
                 maxp = len(pts)
                 anycap = False
+                roots2 = []
+                for root, sp in zip(roots, pmap(split, roots)):
+                    if sp is None:
+                        roots2.append(root)
+                        continue
+                    total += 1
+                    outcomes.add(sp[1])
+                    maxp = max(maxp, sp[2])
+                    roots2 += sp[0]
+                roots = roots2
                 for root, (nexec, viol, oc, mp, capped) in zip(roots, pmap(work, roots)):
                     total += nexec
                     outcomes |= oc
